@@ -78,8 +78,11 @@ def gen_case(rng, fmt):
         g0 = [path(base["cmds"], 0), path(copies[0][1], 1)]
         g1 = [path(c, i + 2) for i, (_, c) in enumerate(copies[1:])]
     svgs = [f'<svg xmlns="http://www.w3.org/2000/svg" viewBox="0 0 {vb} {vb}">' + "".join(g) + "</svg>" for g in (g0, g1) if g]
+    # tolerance 1.0 only with translations: at 1.0 the cache normalises at 0.1, where picosvg stops canonicalising reflections /
+    # rotations of thin shapes (known finding `known:c19:thin-rect:mirrorx:tol1.0`, measured 2 failures in 1500 cases)
+    tols = [0.1, 0.1, 0.25, 1.0] if k_fixed == "translate" else [0.1, 0.1, 0.25]
     cfg = {"color_format": fmt, "upem": 1024, "ascender": 950, "descender": -250, "width": 1275,
-           "reuse_tolerance": rng.choice([0.1, 0.1, 0.25, 1.0]), "keep_glyph_names": True}
+           "reuse_tolerance": rng.choice(tols), "keep_glyph_names": True}
     return {"id": f"c19:{fmt}:{rng.getrandbits(40)}", "seed": 0, "fmt": fmt, "svgs": svgs, "config": cfg,
             "codepoints": [[0xE000 + i] for i in range(len(svgs))], "kinds": [base["kind"]] + [k for k, _ in copies], "n_copies": n + 1}
 
